@@ -16,10 +16,15 @@ POOL = ["1/1/1", "1/1/2", "1/1/3", "2/0/7", "i-verif-a", "i-verif-b", "0/0/1", "
 
 
 def factories():
-    from xknx.devices import (BinarySensor, Climate, Cover, ExposeSensor, Fan, Light, Notification, NumericValue,
+    from xknx.devices import (BinarySensor, Climate, ClimateMode, Cover, ExposeSensor, Fan, Light, Notification, NumericValue,
                               RawValue, Scene, Sensor, Switch)
 
-    return [
+    def climate_with_mode(x, a, b, c):
+        mode = ClimateMode(x, "cm", group_address_operation_mode=c)
+        return [(Climate(x, "clm", group_address_temperature=a, group_address_target_temperature=b, mode=mode), {a, b, c}),
+                (mode, {c})]                      # the mode is a device of its own and may be registered as well
+
+    simple = [
         ("Switch", lambda x, a, b: Switch(x, "sw", group_address=a, group_address_state=b)),
         ("SwitchPassive", lambda x, a, b: Switch(x, "swp", group_address=[a, b])),
         ("Light", lambda x, a, b: Light(x, "li", group_address_switch=a, group_address_brightness=b)),
@@ -34,6 +39,11 @@ def factories():
         ("Notification", lambda x, a, b: Notification(x, "no", group_address=a, group_address_state=b)),
         ("Climate", lambda x, a, b: Climate(x, "cl", group_address_temperature=a, group_address_target_temperature=b)),
     ]
+    one = {"BinarySensor", "RawValue", "ExposeSensor", "Scene"}      # factories that use address a only
+    # the addresses a device uses are those given to its constructor - not what the device itself reports
+    out = [(n, (lambda x, a, b, c, f=f, n=n: [(f(x, a, b), {a} if n in one else {a, b})])) for n, f in simple]
+    out.append(("ClimateWithMode", climate_with_mode))
+    return out
 
 
 def run_hist(seed, nops):
@@ -53,11 +63,12 @@ def run_hist(seed, nops):
         npool = rnd.choice([2, 3, 8])
         for k in range(ndev):
             name, f = rnd.choice(fs)
-            a, b = rnd.choice(POOL[:npool]), rnd.choice(POOL[:npool])
-            d = f(xknx, a, b)
-            devs.append(d)
-            names.append(name)
-            uses.append(sorted({POOL.index(str(g)) + 1 for g in d.group_addresses()}))
+            a, b, c = rnd.choice(POOL[:npool]), rnd.choice(POOL[:npool]), rnd.choice(POOL[:npool])
+            for d, addrs in f(xknx, a, b, c):
+                devs.append(d)
+                names.append(name if len(names) == 0 or names[-1] != name or name != "ClimateWithMode" else "ClimateMode")
+                uses.append(sorted({POOL.index(g) + 1 for g in addrs}))
+        ndev = len(devs)
         got = []
         for k, d in enumerate(devs):
             d.process = (lambda t, k=k: got.append(k + 1))
@@ -72,6 +83,8 @@ def run_hist(seed, nops):
                     res = "ok"
                 except ValueError:
                     res = "error"
+                except Exception as ex:  # noqa: BLE001 - recorded; the spec knows "ok" and "error" only
+                    res = "raised:" + type(ex).__name__
                 ev.append({"op": "add", "d": k + 1, "res": res, "n": len(reg)})
             elif r < 0.6:
                 k = rnd.randrange(ndev)
@@ -80,6 +93,8 @@ def run_hist(seed, nops):
                     res = "ok"
                 except ValueError:
                     res = "error"
+                except Exception as ex:  # noqa: BLE001
+                    res = "raised:" + type(ex).__name__
                 ev.append({"op": "remove", "d": k + 1, "res": res, "n": len(reg)})
             else:
                 g = rnd.randrange(npool)
@@ -89,7 +104,10 @@ def run_hist(seed, nops):
                 byga = [devs.index(d) + 1 for d in reg.devices_by_group_address(dst)]
                 ev.append({"op": "process", "ga": g + 1, "got": list(got), "byga": byga})
         for d in list(reg):
-            reg.async_remove(d)
+            try:
+                reg.async_remove(d)
+            except Exception:  # noqa: BLE001 - clean-up only
+                pass
         return {"uses": uses, "types": names, "ev": ev}
     finally:
         loop.close()
